@@ -50,6 +50,11 @@ func StartKeygenCommon(taproot bool, group curve.Curve, participants []party.ID,
 		}
 
 		refresh := true
+		if privateShare != nil && publicKey != nil {
+			// the rounds add the new sub-shares to this scalar in place: work on a copy,
+			// so that the caller's existing config is left untouched by the refresh
+			privateShare = group.NewScalar().Set(privateShare)
+		}
 		if privateShare == nil || publicKey == nil {
 			refresh = false
 			privateShare = group.NewScalar()
